@@ -37,10 +37,12 @@ theorem dinv_sweep {P : Params} {S : Shape} {w : World} {G : Ghost} (live : List
   constructor
   · intro l r e h hrr hd g hg
     exact di.rec_out l r e (hrec l r h).1 hrr hd g hg
-  · intro l r e h hrr hd g hg
-    exact di.rec_hist l r e (hrec l r h).1 hrr hd g hg
-  · intro l r e h hrr hd x hx
-    have := di.rec_seen l r e (hrec l r h).1 hrr hd x hx
+  · intro l r e h hrr hd
+    exact di.rec_attrs l r e (hrec l r h).1 hrr hd
+  · intro l r e a h hrr hd hat g hg
+    exact di.rec_hist l r e a (hrec l r h).1 hrr hd hat g hg
+  · intro l r e a h hrr hd hat x hx
+    have := di.rec_seen l r e a (hrec l r h).1 hrr hd hat x hx
     unfold SeenOK at this ⊢
     exact this
   · intro l r h x st hst
@@ -52,14 +54,14 @@ theorem dinv_sweep {P : Params} {S : Shape} {w : World} {G : Ghost} (live : List
   · intro l r h hk
     exact di.src_runs l r (hrec l r h).1 hk
 
-theorem reach_dinv {P : Params} {S : Shape} (hinj : SumInj P) (hsr : P.stampRuns = true) (hmk : P.marker = true)
+theorem reach_dinv {P : Params} {S : Shape} (hinj : SumInj P) (hsr : P.stampRuns = true) (hlc : P.listCheck = true) (hmk : P.marker = true)
     {R : Label → Prop} {w : World} (h : Reach P S R w) : ∃ G, DInv P S w G ∧ G.retired = R := by
   induction h with
   | init w h => exact ⟨⟨fun _ _ _ => 0, fun _ _ _ => [], fun _ => False⟩, dinv_empty P S w _ h, rfl⟩
   | edit _ he ih => obtain ⟨G, di, hr⟩ := ih; exact ⟨G, dinv_edit di he, hr⟩
   | build t o ord _ hc hdry ho hret ih =>
     obtain ⟨G, di, hr⟩ := ih
-    obtain ⟨G', di', hr', _⟩ := build_consistent hc hinj hsr hdry ord _ G di ho (by rw [hr]; exact hret)
+    obtain ⟨G', di', hr', _⟩ := build_consistent hc hinj hsr hlc hdry ord _ G di ho (by rw [hr]; exact hret)
     exact ⟨G', di', by rw [hr', hr]⟩
   | dry t o ord _ hdry ih =>
     obtain ⟨G, di, hr⟩ := ih
@@ -69,7 +71,7 @@ theorem reach_dinv {P : Params} {S : Shape} (hinj : SumInj P) (hsr : P.stampRuns
     exact dinv_load t di
   | crash t o ord k _ hc hdry ho hret ih =>
     obtain ⟨G, di, hr⟩ := ih
-    obtain ⟨G', di', hr'⟩ := crash_dinv hc hinj hsr hmk hdry ord _ G di ho (by rw [hr]; exact hret) k
+    obtain ⟨G', di', hr'⟩ := crash_dinv hc hinj hsr hlc hmk hdry ord _ G di ho (by rw [hr]; exact hret) k
     exact ⟨G', di', by rw [hr', hr]⟩
   | crashLoad t k _ ih =>
     obtain ⟨G, di, hr⟩ := ih
